@@ -424,6 +424,10 @@ OrderAlphabet ==       \* C03: definition chains / diamonds / uses in every oper
 OrderTwoAlphabet ==    \* C03 across linked files: a name another file exports and this file also defines for itself, before or after its uses
   { ConstX("c", Num(13)), Const("c", Num(5)), LabX("l"), Lab("l"), W(<<Sym("c")>>), By(<<Sym("c")>>), Const("a", Bin("+", Sym("c"), Num(1))), W(<<A, Sym("l")>>),
     I1("movi", Sym("c")), Blkb(Sym("c")) }
+OrderErrAlphabet ==    \* C03, success/failure half: definitions nobody uses whose value is an error (or not) depending on a symbol defined elsewhere
+  { Const("z", Num(0)), Const("z", Num(4)), Const("lim", Sym("z")), Const("q1", Bin("+", Bin("/", Num(100), Sym("lim")), Num(1))),
+    Const("q2", Neg(Bin("%", Num(100), Sym("lim")))), Const("q3", Bin("-", Bin("<<", Num(1), Bin("-", Sym("lim"), Num(1))), Num(1))),
+    W(<<Sym("q1")>>), I0("nop"), Const("lim", Bin("-", Sym("z"), Num(4))) }
 OrderCoreAlphabet ==   \* C03: the core of OrderAlphabet, small enough for all programs of 4 statements
   { Const("a", Bin("+", B, Num(1))), Const("b", Bin("*", Sym("c"), Num(2))), Const("c", Num(5)),
     Const("p", Bin("+", Sym("l"), Num(2))), Const("q", Bin("+", Sym("l"), Num(102))), Lab("l"),
